@@ -66,6 +66,16 @@ def _lock_decorators(ck, module):
                 if held:
                     break
             if held is None:
+                # no with-block: the lock may be taken by hand (`me.<lock>.acquire()` ... `finally: me.<lock>.release()`)
+                for x in w.calls("acquire"):
+                    r = A.call_recv(x)
+                    if isinstance(r, ast.Name):
+                        r = safe_expand(w, r)
+                    if isinstance(r, ast.Attribute) and isinstance(r.value, ast.Name) and r.value.id == me:
+                        lr = LockRegions(ck, wfi, r.attr, me=me)
+                        if lr.held(c) and not lr.leaks():
+                            held = r.attr
+            if held is None:
                 ok = False
             else:
                 locks.add(held)
@@ -117,8 +127,8 @@ class LockRegions:
     `self.<lock>.release()` has undone.  `acquire(); try: ... finally: release()`, a with-block and the lock-holding
     decorator are thereby the same thing to the rules."""
 
-    def __init__(self, ck, m, lock, lock_cms=()):
-        self.m, self.lock, self.lock_cms = m, lock, set(lock_cms)
+    def __init__(self, ck, m, lock, lock_cms=(), me="self"):
+        self.m, self.lock, self.lock_cms, self.me = m, lock, set(lock_cms), me
         self.fa = fa = FA(ck, m, exc_mode="all")
         cfg = fa.cfg
         self.withs = [w for w in fa.stmts((ast.With,)) if lock and any(self.is_lock_item(i.context_expr) for i in w.items)]
@@ -127,7 +137,7 @@ class LockRegions:
             if n.ast is None or n.kind not in ("stmt", "test", "for", "with"):
                 continue
             for c in self._own_calls(n):
-                if lock and isinstance(c.func, ast.Attribute) and self_attr(c.func.value, lock):
+                if lock and isinstance(c.func, ast.Attribute) and self._is_lock(c.func.value):
                     if c.func.attr == "release":
                         self.releases.append(n.id)
                     elif c.func.attr == "acquire" and n.kind == "stmt" and isinstance(n.ast, ast.Expr) and n.ast.value is c and not c.args \
@@ -135,6 +145,11 @@ class LockRegions:
                         self.acquires.append(n.id)
         self._lex = {}
         self.held_in = self._solve()
+
+    def _is_lock(self, e) -> bool:
+        if isinstance(e, ast.Name):
+            e = safe_expand(self.fa, e)  # `lk = self._lock` ... `lk.acquire()`
+        return isinstance(e, ast.Attribute) and e.attr == self.lock and isinstance(e.value, ast.Name) and e.value.id == self.me
 
     def _own_calls(self, n):
         if n.kind == "for":
@@ -146,9 +161,9 @@ class LockRegions:
         return [c for r in roots for c in A.calls_in(r)]
 
     def is_lock_item(self, e) -> bool:
-        if self_attr(e, self.lock):
+        if self._is_lock(e):
             return True
-        return isinstance(e, ast.Call) and isinstance(e.func, ast.Attribute) and isinstance(e.func.value, ast.Name) and e.func.value.id == "self" \
+        return isinstance(e, ast.Call) and isinstance(e.func, ast.Attribute) and isinstance(e.func.value, ast.Name) and e.func.value.id == self.me \
             and e.func.attr in self.lock_cms and not e.args and not e.keywords
 
     def lexical_with(self, astnode):
